@@ -258,7 +258,7 @@ def computedExecute (sub : SubRun) (g : G) (c : Nat) (a : Nat) : G Ã— Res (Val Ã
             | .panic s => (g', .panic s)
             | .err e => (g', .err e) | .unsup w => (g', .unsup w) | .diverge => (g', .diverge))
          | none => (g', .ok (.null, "")))
-      | (g', .err e) => (g', .err e)
+      | (g', .err e) => (setOps g' c (getOps g' cid), .err e)     -- a failed sub-evaluation is charged as well
       | (g', .panic s) => (g', .panic s)
       | (g', .unsup w) => (g', .unsup w)
       | (g', .diverge) => (g', .diverge)
@@ -325,7 +325,7 @@ def funcInvoke (sub : SubRun) (g : G) (c : Nat) (a : Nat) (args : List Val) : G 
         let fr : Frame := { ctx := cid, code := code, stack := newStack, srcBytes := DS.Detail.utf8 expr }
         match sub g fr with
         | (g', .ok out) => (setOps g' c (getOps g' cid), .ok (out.top.getD .null))
-        | (g', .err e) => (g', .err e)
+        | (g', .err e) => (setOps g' c (getOps g' cid), .err e)
         | (g', .panic s) => (g', .panic s)
         | (g', .unsup w) => (g', .unsup w)
         | (g', .diverge) => (g', .diverge)
